@@ -7,7 +7,7 @@
 From Coq Require Import Sorting.Sorted.
 From DicomV Require Import Base.Endian Model.Vr Model.Header Model.Prim Model.Dataset Model.Writer Model.Reader
   Spec.Ps35 Proofs.HeaderP Proofs.PrimP Proofs.WriterP Proofs.ValidP Proofs.FlatP Proofs.ValueP Proofs.ReaderP
-  Proofs.RoundTripP.
+  Proofs.RoundTripP Proofs.TotalP.
 Open Scope N_scope.
 
 (** Full statement (kept visible): every well-formed data set, of any nesting,
@@ -32,6 +32,24 @@ Theorem C01_roundtrip_flat : forall c nochange inv d is_sq es b,
   write_dataset c nochange inv es = Ok b ->
   read_dataset c d b = Ok (map (norm_elem c d) es).
 Proof. exact roundtrip_flat. Qed.
+
+(** Proved part 2: writing such a data set never fails and never panics
+    ([elem_writable]: VR-typed value, ISO 8859-1 text, printable dates, value
+    shorter than 2^32-1 bytes and fitting the 16-bit length field where the VR
+    has one; DS/IS not given as floats (float formatting is not modelled)). *)
+Theorem C01_write_total_flat : forall c nochange inv es,
+  Forall (elem_writable c) es -> exists b, write_dataset c nochange inv es = Ok b.
+Proof. exact write_flat_total. Qed.
+
+(** Both parts together, in the shape of the full statement. *)
+Theorem C01_flat : forall c nochange inv d is_sq es,
+  Forall (elem_writable c) es -> Forall (elem_ok c is_sq) es -> Forall (rt_ok c d) es ->
+  StronglySorted tag_lt (map elem_tag es) ->
+  exists b, write_dataset c nochange inv es = Ok b /\ read_dataset c d b = Ok (map (norm_elem c d) es).
+Proof.
+  intros c nc inv d is_sq es Hw H1 H2 S. destruct (write_flat_total c nc inv es Hw) as [b E].
+  exists b. split; [exact E | exact (roundtrip_flat c nc inv d is_sq es b H1 H2 S E)].
+Qed.
 
 (** The normalisation of values, made explicit for the two big classes. *)
 (** Binary words (US SS OW UL SL OL FL OF UV SV OV FD OD): exactly the numbers written. *)
@@ -103,6 +121,8 @@ Check C01_roundtrip_flat : forall c nochange inv d is_sq es b,
   write_dataset c nochange inv es = Ok b ->
   read_dataset c d b = Ok (map (norm_elem c d) es).
 Print Assumptions C01_roundtrip_flat.
+Print Assumptions C01_write_total_flat.
+Print Assumptions C01_flat.
 Print Assumptions C01_value_words.
 Print Assumptions C01_value_text.
 Print Assumptions C01_value_words_raw.
